@@ -1531,6 +1531,59 @@ def s_option_and_then(eng, frame, st, args, fj, depth, site):
             yield from call_closure(eng, s2, args[1], [payload], depth, site)
 
 
+RESULT = "std::result::Result"
+
+
+def split_result(eng, st, v):
+    """-> list of (state, 'Ok'|'Err', payload)"""
+    if v[0] == "ptr":
+        v = eng.read_rp(st, v[1], v[2])
+    if v[0] == "agg" and v[2] in ("Ok", "Err"):
+        return [(st, v[2], proj(v, ("f", RESULT, "0")))]
+    for c in st.cond:
+        if c[0] == "variant" and c[1] == v and c[3] and c[2] in ("Ok", "Err"):
+            return [(st, c[2], proj(proj(v, ("v", c[2])), ("f", RESULT, "0")))]
+    out = []
+    for tag in ("Ok", "Err"):
+        s1 = st.fork()
+        s1.cond.append(("variant", v, tag, True))
+        out.append((s1, tag, proj(proj(v, ("v", tag)), ("f", RESULT, "0"))))
+    return out
+
+
+def s_result_ok(eng, frame, st, args, fj, depth, site):
+    for s2, tag, payload in split_result(eng, st, args[0]):
+        yield s2, (some(payload) if tag == "Ok" else NONE)
+
+
+def s_result_err(eng, frame, st, args, fj, depth, site):
+    for s2, tag, payload in split_result(eng, st, args[0]):
+        yield s2, (some(payload) if tag == "Err" else NONE)
+
+
+def s_result_is(which):
+    def f(eng, frame, st, args, fj, depth, site):
+        for s2, tag, payload in split_result(eng, st, args[0]):
+            yield s2, C(tag == which)
+    return f
+
+
+def s_result_inspect(which):
+    def f(eng, frame, st, args, fj, depth, site):
+        v = args[0] if args[0][0] != "ptr" else eng.read_rp(st, args[0][1], args[0][2])
+        for s2, tag, payload in split_result(eng, st, v):
+            if tag != which:
+                yield s2, v
+                continue
+            eng.frame_counter += 1
+            tmp = ("L", eng.frame_counter, -7)
+            s2.store[tmp] = payload
+            for s3, r in call_closure(eng, s2, args[1], [("ptr", tmp, ())], depth, site):
+                if r is not PANIC:
+                    yield s3, ("agg", RESULT, tag, (("0", payload),))
+    return f
+
+
 INT_TYPES = ("u8", "u16", "u32", "u64", "u128", "usize", "i8", "i16", "i32", "i64", "i128", "isize")
 ORDERING = "std::cmp::Ordering"
 
@@ -1855,6 +1908,12 @@ DEFAULT_SUMMARIES = {
     "std::option::Option::map_or_else": s_option_map_or_else,
     "std::option::Option::unwrap_or_else": s_option_unwrap_or_else,
     "std::cmp::Ord::cmp": s_ord_cmp,
+    "std::result::Result::ok": s_result_ok,
+    "std::result::Result::err": s_result_err,
+    "std::result::Result::is_ok": s_result_is("Ok"),
+    "std::result::Result::is_err": s_result_is("Err"),
+    "std::result::Result::inspect_err": s_result_inspect("Err"),
+    "std::result::Result::inspect": s_result_inspect("Ok"),
     "std::option::Option::<std::option::Option<T>>::flatten": s_option_flatten,
     "std::option::Option::flatten": s_option_flatten,
     "core::bool::<impl bool>::then_some": s_bool_then_some,
